@@ -10,7 +10,7 @@ RULE = ('Hypothesis draws (mode valid) a domain (2-4 attrs, sizes 1-4), 1-4 meas
         '(identity/dense/prefix/sparse/scaled/total) and tuple projections (overlapping, nested, duplicated), total given '
         'or omitted, marginal oracle in {convex, approx, pairwise}, iters in {1,2,3,5,20,100,300}, inner_iters in {1,3}: '
         'estimate must return; every measured clique table finite, >=0, sums to model.total; loss recomputed from those '
-        'tables <= loss of uniform tables; convex oracle: primal feasibility < 1. (mode exact) pairwise-disjoint distinct '
+        'tables <= loss of uniform tables; convex oracle: primal feasibility < 1; a quarter of the valid cases declare structural zeros (a few cells or a whole attribute value): tables stay valid and the declared cells of a measured clique carry no mass. (mode exact) pairwise-disjoint distinct '
         'measured cliques: after iteration escalation (1000, 4000, 16000) the loss must reach the certified simplex-QP optimum '
         '(plateau rule as C03). Non-trivial = overlapping cliques (valid) / >=2 disjoint cliques with non-identity Q or '
         'unequal noise (exact); distinct by sha1.')
@@ -140,7 +140,7 @@ def run_case(case):
             # the uniform table is not a feasible start any more; instead: impossible cells carry no mass
             for m in meas:
                 for z in zs:
-                    if set(z['clique']) <= set(m.proj):
+                    if set(z['clique']) == set(m.proj):      # (a super-clique agrees with it only up to the feasibility tolerance)
                         v = np.asarray(model.project(tuple(m.proj)).values, float)
                         mask = inf.zero_mask([z], list(m.proj), list(v.shape))
                         if float(np.abs(v[mask]).sum()) > 1e-9 * tot:
@@ -149,6 +149,13 @@ def run_case(case):
             return out.fail('worse_than_uniform', 'loss %r of the returned tables exceeds the loss %r of uniform tables (oracle %s, iters %d)' % (L, Lu, case['oracle'], case['iters']))
         if case['oracle'] == 'convex':
             pf = model.primal_feasibility(model.marginals)
+            if not pf < 1.0 and zs:
+                # root-cause signature of F25: with -inf potentials the oracle is stationary at tables that disagree
+                mu_ = model.marginals
+                for _ in range(5):
+                    mu_ = model.belief_propagation(model.potentials)
+                if abs(float(model.primal_feasibility(mu_)) - float(pf)) <= 1e-9 * max(1.0, float(pf)):
+                    out.extra['stationary_infeasible_with_zeros'] = True
             if not pf < 1.0:
                 return out.fail('infeasible', 'primal_feasibility of the returned marginals is %r (the estimator enforces < 1.0)' % pf)
             # independent view of the same guarantee: the estimator enforces an average L1 disagreement < 1 over its
@@ -223,4 +230,8 @@ def _two_cycle(case, outc):
     return bool(outc.extra.get('two_cycle')) and case.get('mode') == 'exact'
 
 
-KNOWN = {'two_cycle': _two_cycle}
+def _zeros_convex(case, outc):
+    return bool(outc.extra.get('stationary_infeasible_with_zeros')) and bool(case.get('zeros')) and case.get('oracle') == 'convex'
+
+
+KNOWN = {'two_cycle': _two_cycle, 'zeros_convex_stationary': _zeros_convex}
